@@ -334,6 +334,7 @@ func VerifH_C01_this_arguments() {
 	call := []string{"f()", "f(1)", "f(1, 2)", "f(1, 2, 3)"}[nargs]
 	src := "var glob = this; function who() { return this === glob ? 1 : typeof this == 'object' ? 2 : 3 }" +
 		"rec(who()); rec(who.call(x)); rec(who.apply(x)); var o = {m: who}; rec(o.m()); rec((0, o.m)()); rec(o['m']()); rec(who.bind(x)()); rec(who.bind(x).call(o)); rec(new who() instanceof who ? 4 : 5);" +
+		"function BF() {} var BB = BF.bind(x); rec(new BF() instanceof BB); rec(new BB() instanceof BB); rec(new BB() instanceof BF); rec(({}) instanceof BB);" +
 		"rec((function () { return who() })()); rec([who][0]() );" +
 		"function f(a, b) { arguments[0] = p; b = q; return [a, arguments[1], arguments.length, f.length] } var r = " + call + "; rec(r[0]); rec(r[1]); rec(r[2]); rec(r[3]); r.length"
 	v, err := verifSubmit(vm, src, verifRoute())
@@ -342,7 +343,8 @@ func VerifH_C01_this_arguments() {
 	if kind <= 1 {
 		boxed = 1 // undefined / null this becomes the global object
 	}
-	want := verifNums(1, boxed, boxed, 2, 1, 2, boxed, boxed, 4, 1, 2)
+	want := verifNums(1, boxed, boxed, 2, 1, 2, boxed, boxed, 4)
+	want = append(want, toValue(true), toValue(true), toValue(true), toValue(false), numV(1), numV(2))
 	a, b := Value{}, Value{}
 	if nargs >= 1 {
 		a = numV(p)
